@@ -1013,3 +1013,23 @@ package kafka
 //@   requires len(clientID) <= 0x7fff && len(topic) <= 0x7fff
 //@   modifies wb.$wn, wb.b
 //@   callsite (*writeBuffer).Flush requires wb.$wn == old(wb.$wn) + 4 + int(h.Size)
+
+//@ property C12
+
+// Routing: a request for which the cluster layout (or the coordinator lookup) designates a broker is sent on a connection
+// of that broker's group; the shared control connection is used only when no broker is designated (id < 0).
+//@ func reject
+//@   trusted builds a rejected promise
+//@ func (*connPool).grabBrokerConn
+//@   trusted picks a connection of the broker's group (connPool.conns[brokerID])
+//@ func (*connPool).grabClusterConn
+//@   trusted picks a connection of the control group
+//@ iface promise.await
+//@   trusted waits for the response of a request sent earlier
+//@ func (*connPool).sendRequest
+//@   option noframe
+//@   modifies heap
+//@   assume a FindCoordinator request is answered with a *findcoordinator.Response (protocol pairing of request and response types)
+//@   callsite iface promise.await ensures result1 == nil ==> typeis(result0, "*findcoordinator.Response") && !isnil(deref(result0, "findcoordinator.Response"))
+//@   callsite (*connPool).grabClusterConn requires brokerID < 0
+//@   callsite (*connPool).grabBrokerConn requires $2 >= 0 && $2 == brokerID
